@@ -29,5 +29,10 @@ def main(run):
       with anchored(run, 'C04/P:valence-abstraction'):
         from contracts import valence
         valence.run(run)
+    if want(run, 'F'):
+      with anchored(run, 'C04/F'):
+        # the observables of this property are (or read) memoised values: no covered mutator leaves one of them stale (engine F restricted to the keys these observables read)
+        from checks.fpart import run_F
+        run_F(run, entry_points=['brutto', 'molecular_charge', 'molecular_mass', 'is_radical', 'check_valence', 'brutto_formula', 'bonds_count'])
     bounded_part(run, 'C04')
     return FINISH
